@@ -33,10 +33,10 @@ def setters : List Setter := [
   ⟨"class_BaseGeo.py", "BaseGeo", "position", "inp", [.assign "old_pos" false [], .assign "self._position" true ["check_format_input_vector"], .assign "oriQ" false ["self._orientation.as_quat"], .assign "self._orientation" true ["pad_slice_path", "R.from_quat"], .loop ["getattr"] [.assign "old_pos" false ["pad_slice_path"], .assign "child_pos" false ["pad_slice_path"], .assign "rel_child_pos" false [], .assign "child.position" true []]]⟩,
   ⟨"class_BaseGeo.py", "BaseGeo", "orientation", "inp", [.assign "old_oriQ" false ["self._orientation.as_quat"], .assign "oriQ" false ["check_format_input_orientation"], .assign "self._orientation" true ["R.from_quat"], .assign "self._position" true ["pad_slice_path"], .loop ["getattr"] [.assign "child.position" true ["pad_slice_path"], .assign "old_ori_pad" false ["pad_slice_path", "np.squeeze", "R.from_quat"], .expr ["old_ori_pad.inv", "child.rotate"]]]⟩,
   ⟨"class_BaseGeo.py", "BaseGeo", "style", "val", [.assign "self._style" true ["self._validate_style"]]⟩,
-  ⟨"class_Collection.py", "BaseCollection", "children", "children", [.loop [] [.assign "child._parent" true []], .assign "self._children" true [], .expr ["self._update_src_and_sens"], .expr ["self.add"]]⟩,
-  ⟨"class_Collection.py", "BaseCollection", "sources", "sources", [.assign "new_children" false [], .loop [] [.ite [] [.assign "child._parent" true []] [.expr ["new_children.append"]]], .assign "self._children" true [], .expr ["self._update_src_and_sens"], .assign "src_list" false ["format_obj_input"], .expr ["self.add"]]⟩,
-  ⟨"class_Collection.py", "BaseCollection", "sensors", "sensors", [.assign "new_children" false [], .loop [] [.ite [] [.assign "child._parent" true []] [.expr ["new_children.append"]]], .assign "self._children" true [], .expr ["self._update_src_and_sens"], .assign "sens_list" false ["format_obj_input"], .expr ["self.add"]]⟩,
-  ⟨"class_Collection.py", "BaseCollection", "collections", "collections", [.assign "new_children" false [], .loop [] [.ite [] [.assign "child._parent" true []] [.expr ["new_children.append"]]], .assign "self._children" true [], .expr ["self._update_src_and_sens"], .assign "coll_list" false ["format_obj_input"], .expr ["self.add"]]⟩,
+  ⟨"class_Collection.py", "BaseCollection", "children", "children", [.expr ["list", "self._replace_children"]]⟩,
+  ⟨"class_Collection.py", "BaseCollection", "sources", "sources", [.assign "src_list" false ["format_obj_input"], .assign "removed" false [], .expr ["self._replace_children"]]⟩,
+  ⟨"class_Collection.py", "BaseCollection", "sensors", "sensors", [.assign "sens_list" false ["format_obj_input"], .assign "removed" false [], .expr ["self._replace_children"]]⟩,
+  ⟨"class_Collection.py", "BaseCollection", "collections", "collections", [.assign "coll_list" false ["format_obj_input"], .assign "removed" false [], .expr ["self._replace_children"]]⟩,
   ⟨"class_Sensor.py", "Sensor", "pixel", "pix", [.assign "pixel" false ["range", "check_format_input_vector"], .ite [] [.raise "MagpylibBadUserInput"] [], .assign "self._pixel" true []]⟩,
   ⟨"class_Sensor.py", "Sensor", "handedness", "val", [.ite ["isinstance"] [.raise "MagpylibBadUserInput"] [], .assign "self._handedness" true []]⟩,
   ⟨"class_current_Circle.py", "Circle", "diameter", "dia", [.assign "self._diameter" true ["check_format_input_scalar"]]⟩,
